@@ -24,7 +24,7 @@ type C13Case struct {
 	// top of them (a renter transaction rebased alone, a relayed child)
 	ChildrenOnly bool         `json:"children_only,omitempty"`
 	Extra        []kit.Intent `json:"extra,omitempty"` // further transactions built on top
-	// Corrupt: 0 none, 1 flip a proof hash, 2 change a leaf index, 3 unknown basis id, 4 basis with a wrong height
+	// Corrupt: 0 none, 1 flip a proof hash, 2 change a leaf index, 3 unknown basis id, 4..9 basis naming a known block at a height it does not have (+3, +1, -1, the target's height, 0, MaxUint64)
 	Corrupt int `json:"corrupt,omitempty"`
 	// Pool family: also pool the set on the tip and ask for broadcastable sets
 	Pool bool `json:"pool,omitempty"`
@@ -49,7 +49,7 @@ func genC13(t *rapid.T) C13Case {
 		c.Extra = append(c.Extra, in)
 	}
 	if kit.Chance(t, 15, "corruptroll") {
-		c.Corrupt = 1 + kit.Uniform(t, 4, "corrupt")
+		c.Corrupt = 1 + kit.Uniform(t, 9, "corrupt")
 	}
 	c.Pool = kit.Chance(t, 35, "pool")
 	if c.UseNext && kit.Chance(t, 40, "childrenonly") {
@@ -257,8 +257,27 @@ func runC13(c C13Case, cs *kit.CaseStats) (err error) {
 		}
 	case 3:
 		basis.ID = types.BlockID(types.HashBytes([]byte("no such block")))
-	case 4:
-		basis.Height += 3
+	case 4, 5, 6, 7, 8, 9:
+		real := basis.Height
+		switch c.Corrupt {
+		case 4:
+			basis.Height += 3
+		case 5:
+			basis.Height++
+		case 6:
+			basis.Height--
+		case 7:
+			basis.Height = to.Height
+		case 8:
+			basis.Height = 0
+		case 9:
+			basis.Height = ^uint64(0)
+		}
+		if basis.Height == real {
+			c.Corrupt = 0
+		} else {
+			c.Corrupt = 4
+		}
 	}
 	where := fmt.Sprintf("UpdateV2TransactionSet(%d txns %v, from %v, to %v; -%d +%d, corrupt=%d)", len(work), kinds, basis, to.Index(), len(reverted), len(appliedPath), c.Corrupt)
 
@@ -266,7 +285,10 @@ func runC13(c C13Case, cs *kit.CaseStats) (err error) {
 	cs.Classf("corrupt=%d", c.Corrupt)
 	if c.Corrupt != 0 {
 		if c.Corrupt == 4 {
-			return nil // malformed basis: only "no panic" is asserted
+			if uerr == nil {
+				return fmt.Errorf("%s: a basis naming a known block at a height it does not have was accepted", where)
+			}
+			return nil
 		}
 		if uerr == nil && basis != to.Index() {
 			return fmt.Errorf("%s: a corrupted proof / unknown basis was accepted", where)
